@@ -162,6 +162,7 @@ type fakeChain struct {
 	cfg     *params.ChainConfig
 	headers map[common.Hash]*types.Header
 	blocks  map[common.Hash]*types.Block
+	head    *types.Header // what CurrentHeader() reports (the uncle section puts it on either side of HF5, far from the block under test)
 	jitter  *uint64 // when non-nil, GetHeader yields/sleeps pseudo-randomly (perturbs worker schedules)
 }
 
@@ -170,7 +171,7 @@ func newChain(c *params.ChainConfig) *fakeChain {
 }
 func (f *fakeChain) Config() *params.ChainConfig      { return f.cfg }
 func (f *fakeChain) GetContext() context.Context      { return context.Background() }
-func (f *fakeChain) CurrentHeader() *types.Header     { return nil }
+func (f *fakeChain) CurrentHeader() *types.Header     { return f.head }
 func (f *fakeChain) GetHeaderByNumber(uint64) *types.Header { return nil }
 func (f *fakeChain) GetHeaderByHash(h common.Hash) *types.Header { return f.headers[h] }
 func (f *fakeChain) GetHeader(h common.Hash, n uint64) *types.Header {
@@ -914,6 +915,8 @@ func (x *H) sectionUncles(r *hx.Rng, scale int) {
 		}
 		// blocks of the main chain; some include earlier side blocks as uncles
 		ch := newChain(cc)
+		// the local head is unrelated to the block under test: the uncle limit must follow the BLOCK's number, not the head's
+		ch.head = newHeader(r, cc, common.Hash{}, []uint64{0, 1, 4, 6, 100, 30000, 1 << 30}[r.Intn(7)], u(uint64(x.now)-5000000), big.NewInt(46039386), 4712388, 0, 0)
 		var blocks []*types.Block
 		included := []*types.Header{}
 		var xverUncle *types.Header
